@@ -179,6 +179,8 @@ def assigned_names(stmts, local_defs):
             target(n.target)
         elif isinstance(n, ast.NamedExpr):
             target(n.target)
+        elif isinstance(n, (ast.Yield, ast.YieldFrom)):
+            names.add("__yielded__")
         elif isinstance(n, ast.comprehension):
             pass
         elif isinstance(n, ast.Call):
@@ -206,6 +208,22 @@ def assigned_names(stmts, local_defs):
             continue
         visit(s)
     return names, fields
+
+
+def rebinds(stmts, name):
+    """True if `name` is (re)bound by an assignment / for target in these statements."""
+    for s in stmts:
+        for n in ast.walk(s):
+            tgts = []
+            if isinstance(n, ast.Assign):
+                tgts = n.targets
+            elif isinstance(n, (ast.AugAssign, ast.AnnAssign, ast.For, ast.NamedExpr)):
+                tgts = [n.target]
+            for t in tgts:
+                for x in ast.walk(t):
+                    if isinstance(x, ast.Name) and x.id == name:
+                        return True
+    return False
 
 
 def number_loops(fnode):
@@ -327,9 +345,13 @@ class Exec:
             return
         self.obligations.setdefault(name, []).append(Obligation(name, self.hyps, goal, kind, self.qualname, lineno))
 
-    def assume(self, f):
+    def assume(self, f, fresh=False):
+        """fresh=True: a fact that only constrains a constant created just now (identity of a
+        newly allocated object); comprehensions keep such facts unconditional."""
         if isinstance(f, bool):
             f = z3.BoolVal(f)
+        if fresh:
+            self.fresh_facts.add(f.get_id())
         self.hyps.append(f)
 
     # ---- heap -------------------------------------------------------------------
@@ -373,11 +395,11 @@ class Exec:
 
     def new_object(self, cls):
         r = z3.Const(fresh_name(f"new.{cls}"), Ref)
-        self.assume(r != V.NULL)
+        self.assume(r != V.NULL, fresh=True)
         for o in self.allocated:
-            self.assume(r != o)
+            self.assume(r != o, fresh=True)
         self.allocated.append(r)
-        self.assume(z3.Not(self.prop.pre_allocated(r)))
+        self.assume(z3.Not(self.prop.pre_allocated(r)), fresh=True)
         return ObjV(r, cls)
 
     # ---- running a function -----------------------------------------------------
@@ -386,6 +408,8 @@ class Exec:
         CURRENT = self
         self.seq_mem_done = set()
         self.materialized = {}
+        self.in_comprehension = 0
+        self.fresh_facts = set()
         self.hyps = []
         self.heap = {}
         self.heap0 = {}
@@ -440,6 +464,14 @@ class Exec:
         self.env.nonlocals.update(s.names)
 
     def st_Expr(self, s):
+        if isinstance(s.value, ast.Yield):
+            # generator under contract: the yielded values form the ghost output sequence
+            out = self.env.get("__yielded__")
+            v = self.eval(s.value.value) if s.value.value is not None else NONE
+            terms = flatten(out.shape, v)
+            arrs = [z3.Store(a, out.n, t) for a, t in zip(arrs_of(out), terms)]
+            self.env.mutate("__yielded__", SeqV(out.shape, arrs if len(arrs) > 1 else arrs[0], out.n + 1))
+            return
         self.eval(s.value)
 
     def st_Import(self, s):
@@ -530,6 +562,14 @@ class Exec:
         from .builtins import EmptySet, empty_seq, empty_set, empty_map
         from . import types as T
 
+        if isinstance(v, NoneList):
+            typ = self.fctx.locals.get(name)
+            if not (isinstance(typ, T.SEQ) and isinstance(typ.elem, T.OPT)):
+                raise Unsupported(f"`[None] * n` bound to {name}: declare its type SEQ(OPT(..)) in the contract")
+            sh = typ.elem.shape()
+            sorts = shape_sorts(sh)
+            arrs = [z3.K(z3.IntSort(), z3.BoolVal(True))] + [z3.K(z3.IntSort(), default_of(s)) for s in sorts[1:]]
+            return SeqV(sh, arrs, v.n)
         if isinstance(v, (EmptySeq, EmptySet, EmptyDict)):
             typ = self.fctx.locals.get(name)
             if typ is None:
@@ -548,6 +588,10 @@ class Exec:
             if len(v.items) != n:
                 raise Unsupported("unpack arity")
             return list(v.items)
+        if is_z3(v) and v.sort() == V.Val:
+            # unpacking an opaque value: its items (a wrong arity would raise in Python; the
+            # contracts that produce such values state their arity)
+            return [self.prop.theory.item(v, z3.IntVal(i)) for i in range(n)]
         raise Unsupported(f"unpacking of {type(v).__name__}")
 
     # ---- loops --------------------------------------------------------------------
@@ -565,6 +609,8 @@ class Exec:
             if e is None:
                 continue  # first assigned inside the loop: no entry value to havoc
             cur = e.vars[nm]
+            if (cur is NONE or isinstance(cur, (StrV, FnV, ClassV, ModV))) and not rebinds(node.body + node.orelse, nm):
+                continue  # only method calls on an immutable value: nothing to havoc
             e.vars[nm] = self.havoc_like(cur, f"{nm}.{lid}")
         # heap: every field the function may modify (declared) or syntactically stores
         for f in sorted(set(fields) | set(self.fctx.modifies_fields)):
@@ -804,6 +850,10 @@ class Exec:
 
     def ev_List(self, e):
         items = [self.eval(x) for x in e.elts]
+        if items and all(isinstance(x, StrV) for x in items):
+            return Tup(items)  # a list of string constants that is only read
+        if len(items) == 1 and items[0] is NONE:
+            return NoneList(z3.IntVal(1))
         return self.seq_from_items(items)
 
     def seq_from_items(self, items, shape=None):
@@ -926,6 +976,11 @@ class Exec:
 
     def binop(self, op, a, b, node):
         a, b = lift(a), lift(b)
+        if isinstance(a, NoneList) and isinstance(op, ast.Mult):
+            n = to_num(b)
+            self.oblige(f"{self.qualname}/repeat_nonneg@{self.rel_line(node)}", n >= 0, "safety")
+            self.assume(n >= 0)
+            return NoneList(a.n * n)
         if isinstance(a, ObjV) and type(op) in self.DUNDER:
             return self.call_method(a, self.DUNDER[type(op)], [b], {}, node)
         if isinstance(a, SetV) or isinstance(b, SetV):
@@ -1157,6 +1212,11 @@ class Exec:
         return self.load_index(base, idx, e)
 
     def load_index(self, base, idx, node=None):
+        if is_z3(base) and base.sort() == V.Val:
+            i = to_num(idx)
+            if not isinstance(i, z3.IntNumRef):
+                raise Unsupported("symbolic index into an opaque value")
+            return self.prop.theory.item(base, i)
         if isinstance(base, Tup):
             if isinstance(idx, tuple) and idx[0] == "slice":
                 lo = idx[1].as_long() if idx[1] is not None else None
@@ -1175,7 +1235,7 @@ class Exec:
                 i = z3.Const(fresh_name("i"), z3.IntSort())
                 arrs = [z3.Lambda([i], z3.Select(a, i + lo)) for a in arrs_of(base)]
                 return SeqV(base.shape, arrs if len(arrs) > 1 else arrs[0], hi - lo)
-            i = to_num(idx)
+            i = self.as_index(idx)
             if isinstance(i, z3.IntNumRef) and i.as_long() < 0:
                 i = base.n + i
             self.oblige(f"{self.qualname}/index_in_bounds@{self.cur_line - self.fnode.lineno}", z3.And(i >= 0, i < base.n), "safety", self.cur_line)
@@ -1183,7 +1243,12 @@ class Exec:
             return base.get(i)
         if isinstance(base, MapV):
             k = coerce_key(self, idx, key_sort(base.kshape))
-            if not self.decide(z3.Select(base.dom, k)):
+            if self.in_comprehension:
+                # inside a comprehension body a path split is not possible: the lookup must
+                # succeed for every value of the bound variable (else KeyError would propagate)
+                self.oblige(f"{self.qualname}/no_exception.KeyError@{self.cur_line - self.fnode.lineno}", z3.Select(base.dom, k), "exception", self.cur_line)
+                self.assume(z3.Select(base.dom, k))
+            elif not self.decide(z3.Select(base.dom, k)):
                 raise RaiseEx("KeyError", self.cur_line)
             return self.map_get(base, k)
         if isinstance(base, ObjV):
@@ -1194,9 +1259,15 @@ class Exec:
         vals = m.val if isinstance(m.val, (list, tuple)) else [m.val]
         return unflatten(m.vshape, [z3.Select(a, k) for a in vals])
 
+    def as_index(self, idx):
+        """A sequence index; an opaque value used as an index is a boxed int."""
+        if is_z3(idx) and idx.sort() == V.Val:
+            return self.prop.theory.unbox_int(idx)
+        return to_num(idx)
+
     def store_index(self, base, idx, v):
         if isinstance(base, SeqV):
-            i = to_num(idx)
+            i = self.as_index(idx)
             self.oblige(f"{self.qualname}/store_in_bounds@{self.cur_line - self.fnode.lineno}", z3.And(i >= 0, i < base.n), "safety", self.cur_line)
             self.assume(z3.And(i >= 0, i < base.n))
             terms = flatten(base.shape, v)
@@ -1234,6 +1305,13 @@ class Exec:
         from .builtins import call_builtin, call_builtin_method
 
         f = self.eval(e.func)
+        if is_z3(f) and f.sort() == V.Val:
+            # opaque callable applied as  f(*a, **k)  with opaque argument packs
+            if len(e.args) == 1 and isinstance(e.args[0], ast.Starred) and len(e.keywords) == 1 and e.keywords[0].arg is None:
+                a, k = self.eval(e.args[0].value), self.eval(e.keywords[0].value)
+                if is_z3(a) and a.sort() == V.Val and is_z3(k) and k.sort() == V.Val:
+                    return self.prop.theory.apply(f, a, k)
+            raise Unsupported("call of an opaque value other than f(*a, **k)")
         args, kwargs = [], {}
         for a in e.args:
             if isinstance(a, ast.Starred):
@@ -1249,8 +1327,10 @@ class Exec:
                 v = self.eval(kw.value)
                 if isinstance(v, KwDict):
                     kwargs.update(v.items)
+                elif isinstance(v, (MapV, EmptyDict)):
+                    kwargs["**"] = v  # handed to the callee's contract as its `**` argument
                 else:
-                    raise Unsupported("**kwargs of a non-literal dict")
+                    raise Unsupported("**kwargs of a non-dict")
             else:
                 kwargs[kw.arg] = self.eval_arg(kw.value)
         return self.call_value(f, args, kwargs, e)
@@ -1267,6 +1347,10 @@ class Exec:
             if f.name and f.name.startswith("builtin:"):
                 return call_builtin(self, f.name[8:], args, kwargs, node)
             if f.node is not None:
+                base = self.qualname.split("[")[0]
+                nested = [s for s in self.prop.specs if s.qualname == f"{base}.{f.name}" and s.relfile == self.relfile]
+                if nested:  # a nested def that has its own contract is called by contract
+                    return self.call_contract(nested[0], args, kwargs, node)
                 return self.call_inline(f, args, kwargs, node)
             c = self.prop.lookup_callee(f.qual, self.relfile)
             if c is not None:
@@ -1278,6 +1362,8 @@ class Exec:
             return call_builtin_method(self, f.recv, f.name, args, kwargs, node)
         if isinstance(f, ClassV):
             return self.construct(f, args, kwargs, node)
+        if isinstance(f, ObjV):
+            return self.call_method(f, "__call__", args, kwargs, node)
         raise Unsupported(f"call of a {type(f).__name__}")
 
     def construct(self, cls, args, kwargs, node):
@@ -1344,8 +1430,22 @@ class Exec:
     def call_contract(self, c, args, kwargs, node):
         from .contracts import FnCtx
 
-        ctx = FnCtx(self.prop, c, mode="call", ex=self, actuals=(args, kwargs), node=node)
-        return ctx.run_call()
+        from .contracts import NotThisSpec
+
+        # several contracts may be registered for one function (labels = calling modes);
+        # each declares with c.applies(...) whether it covers these actual arguments
+        alts = [s for s in self.prop.specs if s.qualname == c.qualname and s.relfile == c.relfile and s.cls == c.cls] or [c]
+        for spec in alts:
+            ctx = FnCtx(self.prop, spec, mode="call", ex=self, actuals=(args, kwargs), node=node)
+            nh, nob = len(self.hyps), {k: len(v) for k, v in self.obligations.items()}
+            try:
+                return ctx.run_call()
+            except NotThisSpec:
+                del self.hyps[nh:]
+                for k in list(self.obligations):
+                    del self.obligations[k][nob.get(k, 0):]
+                continue
+        raise Unsupported(f"no contract of {c.qualname} covers the arguments at line {getattr(node, 'lineno', '?')}")
 
     # comprehension over a sequence -> Lambda array
     def ev_ListComp(self, e):
@@ -1404,6 +1504,13 @@ class EmptySeq:
 
 class EmptyDict:
     pass
+
+
+class NoneList:
+    """`[None] * n` before its element type is known (typed by the declared local type)."""
+
+    def __init__(self, n):
+        self.n = n
 
 
 class KwDict:
